@@ -22,6 +22,8 @@ type Profile struct {
 	MinSteps int
 	Blocks   bool // caller-managed transactions
 	Expiry   bool // expiry-related operations and options
+	BlockProb  float64 // probability that a step is a caller-managed transaction (default 0.15)
+	ExpireProb float64 // probability of following a step by an ExpireAt on one of the keys
 }
 
 const hour = int64(3600000)
@@ -549,7 +551,14 @@ func (g *Gen) History(id int) *History {
 	h := &History{ID: id, Tag: g.Prof.Name}
 	n := g.Prof.MinSteps + g.pick(g.Prof.MaxSteps-g.Prof.MinSteps+1)
 	for i := 0; i < n; i++ {
-		if g.Prof.Blocks && g.chance(0.15) {
+		bp := g.Prof.BlockProb
+		if bp == 0 {
+			bp = 0.15
+		}
+		if g.Prof.ExpireProb > 0 && g.chance(g.Prof.ExpireProb) {
+			h.Steps = append(h.Steps, &Step{Ops: []*Op{KExpireAt(g.key(), g.at())}})
+		}
+		if g.Prof.Blocks && g.chance(bp) {
 			st := &Step{Block: true, StopOnErr: g.chance(0.6)}
 			m := 1 + g.pick(4)
 			for j := 0; j < m; j++ {
@@ -613,6 +622,9 @@ var Profiles = map[string]Profile{
 	"set":  {Name: "set", Families: map[string]int{"set": 10, "key": 1}, MinSteps: 5, MaxSteps: 60, Blocks: true},
 	"hash": {Name: "hash", Families: map[string]int{"hash": 10, "key": 1}, MinSteps: 5, MaxSteps: 60, Blocks: true},
 	"zset": {Name: "zset", Families: map[string]int{"zset": 10, "key": 1}, MinSteps: 5, MaxSteps: 60, Blocks: true},
+	"expiry": {Name: "expiry", Families: map[string]int{"str": 2, "list": 2, "set": 2, "hash": 2, "zset": 2, "key": 4}, MinSteps: 5, MaxSteps: 80, Blocks: true, Expiry: true, ExpireProb: 0.25},
+	"txmix":  {Name: "txmix", Families: map[string]int{"str": 2, "list": 3, "set": 2, "hash": 2, "zset": 2, "key": 2}, MinSteps: 3, MaxSteps: 40, Blocks: true, Expiry: true, BlockProb: 0.6},
+	"refuse": {Name: "refuse", Families: map[string]int{"str": 2, "list": 2, "set": 2, "hash": 2, "zset": 2, "key": 1}, MinSteps: 5, MaxSteps: 60, Blocks: true, Expiry: false, BlockProb: 0.3},
 	"mixed": {Name: "mixed", Families: map[string]int{"str": 2, "list": 2, "set": 2, "hash": 2, "zset": 2, "key": 3}, MinSteps: 5, MaxSteps: 80, Blocks: true, Expiry: true},
 }
 
